@@ -451,11 +451,16 @@ pub proof fn lemma_layout_cap(f: Map<int, Obj>, p: Seq<(i32, i32)>, w: Wiring, c
     }
 }
 
+// C19: a line that is arithmetic is evaluated as arithmetic -- try_run_calculator answers exactly for those lines (tools::is_arithmetic, uninterpreted) ...
+pub uninterp spec fn spec_is_arith(line: Seq<char>) -> bool;
 #[verifier::external_body]
-pub fn try_run_calculator(line: &str, capture: bool) -> (r: Option<CommandResult>) { unimplemented!() }
+pub fn try_run_calculator(line: &str, capture: bool) -> (r: Option<CommandResult>) ensures r.is_some() == spec_is_arith(line@) { unimplemented!() }
+// ... so a function (names may look like `-5` or `2-1`) is looked up for the other lines only.
 // functions run nested command lines; their pipelines preserve the shell's table by this very contract (induction, assumed)
 #[verifier::external_body]
-pub fn try_run_func(sh: &mut Shell, cl: &CommandLine, capture: bool, log_cmd: bool) -> (r: Option<CommandResult>) { unimplemented!() }
+pub fn try_run_func(sh: &mut Shell, cl: &CommandLine, capture: bool, log_cmd: bool) -> (r: Option<CommandResult>)
+    requires !spec_is_arith(cl.line@),   //@L C19.pipeline.an_arithmetic_line_is_evaluated_not_looked_up_as_a_function
+{ unimplemented!() }
 #[verifier::external_body]
 pub fn vx_isatty1() -> bool { unimplemented!() }
 #[verifier::external_body]
@@ -651,6 +656,9 @@ run_pipeline = Fn(C, 'run_pipeline', ret='r',
         # C02 / C03: the status of a pipeline that was waited for is the one the wait reports, captured or not
         'before-text:if start_failed && cmd_result.status == 0': 'LABEL:C02+C03+C11.pipeline.status_is_the_one_the_wait_reported_also_when_captured: '
             'assert(__wst.is_some() ==> cmd_result.status as int == __wst.unwrap());',
+        # C02: the shell resumes only after all stages have terminated -- every pipeline with a started foreground stage is waited for, captured or not
+        'before-text:// a pipeline with a stage that could not be started has failed': 'LABEL:C02+C11.pipeline.started_foreground_stages_are_waited_for_also_when_captured: '
+            'assert(fg_pids@.len() > 0 ==> __wst.is_some());',
         # C08: descriptor exhaustion makes the pipeline fail with a non-zero status
         'before-text:(term_given, cmd_result)': 'LABEL:C08.pipeline.a_stage_that_could_not_be_started_gives_a_nonzero_status: '
             'assert(!spec_single_builtin(*cl) && k.forks.len() < __forks0 + length ==> cmd_result.status != 0);',
